@@ -49,7 +49,25 @@ class ToGFA1:
       gfapy.error.ValueError: If the edge is internal
     """
     self._check_not_internal("overlap")
-    return self.alignment.complement() if self._is_sid1_from() else self.alignment
+    if self._is_sid1_from():
+      # sid1 is the reference sequence of the alignment, as from in GFA1
+      return self.alignment
+    else:
+      return self._alignment_with_roles_swapped()
+
+  def _alignment_with_roles_swapped(self):
+    """The alignment when sid2 is taken as reference sequence (insertions and
+    deletions are exchanged; the order of the operations does not change, as
+    both sequences are still read in the same direction)."""
+    if isinstance(self.alignment, gfapy.CIGAR):
+      swapped = {"I": "D", "D": "I"}
+      return gfapy.CIGAR([gfapy.CIGAR.Operation(op.length,
+                            swapped.get(op.code, op.code))
+                          for op in self.alignment])
+    elif isinstance(self.alignment, gfapy.Trace):
+      return gfapy.AlignmentPlaceholder()
+    else:
+      return self.alignment
 
   @property
   def oriented_from(self):
